@@ -36,7 +36,11 @@ func (g *gen) add(s *Spec) {
 	b, _ := json.Marshal(s)
 	os.WriteFile(g.cur, b, 0o644)
 	term := run(s, g.st)
-	term = "HC " + hashTable(s) + " (" + term + ")"
+	if s.Kind == "seq" {
+		term = "(" + term + ")" // let e0 := .. in HSeq table [steps]
+	} else {
+		term = "HC " + hashTable(s) + " (" + term + ")"
+	}
 	s.CoqTermLen = len(term)
 	key := s.Kind + "|" + s.Describe
 	if !g.seen[key] {
@@ -58,7 +62,7 @@ func hashTable(s *Spec) string {
 	if s.Entry != nil {
 		ents = append(ents, s.Entry)
 	}
-	if s.Kind == "err" {
+	if s.Kind == "err" || s.Kind == "seq" {
 		ents = append(ents, &Entry{Type: "error", Name: "Error", Inputs: []Param{{T: &T{K: kString, Name: "reason"}}}})
 		ents = append(ents, s.ABI...)
 	}
@@ -131,6 +135,9 @@ func (g *gen) signatures(r *cv.Rand, n int) {
 				e.Inputs[j].Indexed = r.Intn(3) == 0
 			}
 		}
+		if e.Type == "function" && r.Bool() { // return values are not part of the signature
+			e.Outputs = genEntry(r, "function", 1+r.Intn(2), 1, true, true).Inputs
+		}
 		g.add(&Spec{Kind: "sig", Class: fmt.Sprintf("random:%d-params", len(e.Inputs)), Entry: e})
 	}
 }
@@ -142,6 +149,9 @@ func (g *gen) calls(r *cv.Rand, n int) []*Spec {
 	types := []string{"function", "error", "function", "constructor"}
 	for i := 0; i < n; i++ {
 		e := genEntry(r, types[r.Intn(4)], i%9, 1+r.Intn(3), false, false)
+		if e.Type == "function" && i%2 == 0 {
+			e.Outputs = genEntry(r, "function", 1+r.Intn(2), 1, false, false).Inputs
+		}
 		v := genValue(r, e.tuple())
 		s := &Spec{Kind: "call", Class: fmt.Sprintf("roundtrip:%d-params", len(e.Inputs)), Entry: e, Value: v, Exact: true}
 		g.add(s)
@@ -657,9 +667,9 @@ func main() {
 	thorough := *tier == "thorough"
 	g.w = cv.NewWriter(*out, "C12", header, "hcase", "mismatches", 16)
 	r := cv.NewRand(12)
-	nSig, nCall, nPool, nMal, nEv, nErr := 150, 110, 40, 12, 20, 36
+	nSig, nCall, nPool, nMal, nEv, nErr, nSeq := 150, 110, 40, 12, 20, 36, 21
 	if thorough {
-		nSig, nCall, nPool, nMal, nEv, nErr = 6000, 6000, 40, 400, 1500, 1500
+		nSig, nCall, nPool, nMal, nEv, nErr, nSeq = 6000, 6000, 40, 400, 1500, 1500, 400
 	}
 	g.events(r, nEv, thorough)
 	g.signatures(r, nSig)
@@ -667,6 +677,7 @@ func main() {
 	g.malformedCalls(r, calls, nMal)
 	g.cross(r, nPool)
 	g.errors(r, nErr)
+	g.sequences(r, nSeq, thorough)
 	if err := g.w.Flush(); err != nil {
 		panic(err)
 	}
